@@ -289,6 +289,14 @@ def main():
             lines.append("| %s | %s:%d | %s | `%s` -> `%s` | %s |" % (m["id"], m["file"], m["line"], m["op"], m["before"][:70].replace("|", "\\|"), m["after"][:70].replace("|", "\\|"), notes.get(m["id"], "")))
         open(os.path.join(OUT, "REPORT.md"), "w").write("\n".join(lines) + "\n")
         print("\n".join(lines[:3]))
+    elif cmd == "diff":
+        # mutate.py diff <id> : the mutant as a patch (for tools/try_patch.sh)
+        import difflib
+        m = [x for x in load() if x["id"] == only[0]][0] if only else None
+        src = open(os.path.join("/repo", m["file"])).read().split("\n")
+        new = list(src)
+        new[m["line"] - 1] = m["_after_full"]
+        sys.stdout.write("".join(difflib.unified_diff([l + "\n" for l in src], [l + "\n" for l in new], "a/" + m["file"], "b/" + m["file"])))
     elif cmd == "clean":
         for d in os.listdir(SCRATCH) if os.path.isdir(SCRATCH) else []:
             p = os.path.join(SCRATCH, d)
